@@ -320,6 +320,12 @@ def classify_miri(stderr):
     return None
 
 
+def norm_miri(line):
+    """Strips run-dependent tags and allocation ids from a Miri error line."""
+    import re
+    return re.sub(r"<\d+>|alloc\d+|0x[0-9a-f]+", "#", line)
+
+
 def miri_prepare(package, cwd=HARNESS, flags=""):
     """Builds `package` for Miri once (a run with arguments that do nothing)."""
     env = dict(ENV)
